@@ -141,6 +141,10 @@ impl Verify for StreamInfo {
                 "must be smaller than `max_frame_size`"
             )?;
         }
+        // the frame-size fields have 24 bits (`min_frame_size` may still hold its
+        // initial sentinel when no frame has been added) and the total 36 bits.
+        verify_range!("max_frame_size", self.max_frame_size(), ..(1usize << 24))?;
+        verify_range!("total_samples", self.total_samples() as u64, ..(1u64 << 36))?;
         verify_range!("sample_rate", self.sample_rate(), ..=96_000)?;
         verify_range!("channels", self.channels(), 1..=8)?;
         // `verify_bps` admits MAX_BITS_PER_SAMPLE + 1 for side channels; a stream cannot.
